@@ -863,13 +863,18 @@ func runTamper(t *rapid.T) {
 	model := vmodel.New()
 	seen := map[blob.Ref]bool{}
 	var sig []any
-	for i := 1; i <= n; i++ {
+	for i, tries := 1, 0; i <= n; i++ {
 		p := genPlain(t, i)
 		if class == "compacted" && p.Size > 6000 {
 			p.Size, p.Kind = 100+i, "small"
 			p.fill()
 		}
 		if seen[p.ref] {
+			// e.g. a second empty plaintext: draw again
+			if tries++; tries > 50 {
+				t.Fatalf("harness: cannot draw %d distinct plaintexts", n)
+			}
+			i--
 			continue
 		}
 		seen[p.ref] = true
